@@ -15,6 +15,7 @@ at quiescence, nothing left running after close, no unexpected exception from an
 import asyncio
 import collections
 import itertools
+import logging
 
 import falcon
 import falcon.asgi
@@ -22,11 +23,13 @@ from falcon import errors
 
 from vlib.sched import aio
 
+logging.raiseExceptions = False      # a log record that cannot be rendered is the logging module's business, not noise for us
+
 LEVEL = 'exploration'
 SHARDS = {'quick': 4, 'thorough': 16}
 BUDGET = {'quick': 18, 'thorough': 170}
 
-STEP_KINDS = ('recv', 'recv2', 'send', 'send!', 'recv!', 'close', 'rstart', 'rcancel', 'rawait')
+STEP_KINDS = ('recv', 'recv2', 'send', 'send!', 'recv!', 'close', 'rstart', 'rcancel', 'rawait', 'raiseh!', 'raisex!')
 K_FAILED_SEND = 'recv-after-failed-send-skips-buffered-messages'
 
 
@@ -87,15 +90,51 @@ class Server:
         return sum(1 for g in self.getters if not g.done())
 
 
+class PlainTextHandlerWS(falcon.media.TextBaseHandlerWS):
+    """Media = the text itself (so that an empty text message is a valid document)."""
+
+    def serialize(self, media):
+        return media
+
+    def deserialize(self, payload):
+        return payload
+
+
+class UnprintableHTTPError(falcon.HTTPError):
+    def __init__(self):
+        super().__init__(418)
+
+    def __str__(self):
+        raise AttributeError('this error cannot be rendered')
+
+    __repr__ = __str__
+
+
+class UnprintableError(Exception):
+    def __str__(self):
+        raise AttributeError('this error cannot be rendered')
+
+    __repr__ = __str__
+
+
 class Run:
     """One execution of (config, script) under a prefix of controller actions."""
 
     def __init__(self, st, cap, k, with_disc, script):
         self.st = st
         self.cap, self.k, self.with_disc, self.script = cap, k, with_disc, script
-        self.msgs = ['m%d' % i for i in range(k)]
+        # message j is received with method (cap + j) % 3: receive_text / receive_media (text) / receive_data, so its
+        # payload is text, text, bytes accordingly; every fourth message is EMPTY (a legal message)
+        self.msgs = []
+        for i in range(k):
+            p = '' if i % 4 == 1 else 'm%d' % i
+            self.msgs.append(p.encode() if (cap + i) % 3 == 2 else p)
         evs = [{'type': 'websocket.connect'}]
-        evs += [{'type': 'websocket.receive', 'text': m} for m in self.msgs]
+        for i, m in enumerate(self.msgs):
+            ev = {'type': 'websocket.receive', ('bytes' if isinstance(m, bytes) else 'text'): m}
+            if i % 2:
+                ev['text' if isinstance(m, bytes) else 'bytes'] = None      # the spec allows the other key as None
+            evs.append(ev)
         if with_disc:
             evs.append({'type': 'websocket.disconnect', 'code': 1001})
         self.server = Server(st.loop, evs)
@@ -112,9 +151,11 @@ class Run:
         self.send_checks = 0
         self.quiescent_checks = 0
         self.send_methods = set()
+        self.recv_methods = set()
         self.left_by_exception = False
         self.app = falcon.asgi.App()
         self.app.ws_options.max_receive_queue = cap
+        self.app.ws_options.media_handlers[falcon.WebSocketPayloadType.TEXT] = PlainTextHandlerWS()
         run = self
 
         class Res:
@@ -147,11 +188,18 @@ class Run:
         elif which == 1:
             await ws.send_data(b's%d' % i)
         else:
-            await ws.send_media({'s': i})
+            await ws.send_media('s%d' % i)
         self.send_methods.add(which)
 
     async def _recv_into_R(self, ws):
-        v = await ws.receive_text()
+        which = (self.cap + len(self.R)) % 3
+        if which == 0:
+            v = await ws.receive_text()
+        elif which == 1:
+            v = await ws.receive_media()
+        else:
+            v = await ws.receive_data()
+        self.recv_methods.add(which)
         self.R.append(v)
         return v
 
@@ -196,6 +244,13 @@ class Run:
                         propagate = ex
                         out = ('disconnected',)
                     kind = kind[:-1]
+                elif kind in ('raiseh!', 'raisex!'):
+                    # the responder fails with an exception object that cannot be rendered (its __str__ raises):
+                    # an HTTP error (-> close 3000+status) or anything else (-> close with the error code); either
+                    # way the connection has to be closed and the background reader stopped
+                    propagate = UnprintableHTTPError() if kind == 'raiseh!' else UnprintableError()
+                    out = ('raised',)
+                    kind = kind[:-1]
                 elif kind == 'close':
                     await ws.close()
                     out = ('ok',)
@@ -226,6 +281,13 @@ class Run:
             self.outcomes.append((kind, out, disc_pulled_at_start, handed))
             self.in_op = None
             if propagate is not None:
+                if self.rtask is not None:      # a receive the application itself started is the application's to end
+                    t, self.rtask = self.rtask, None
+                    t.cancel()
+                    try:
+                        await t
+                    except (asyncio.CancelledError, errors.WebSocketDisconnected):
+                        pass
                 self.finished = True
                 self.left_by_exception = True
                 raise propagate
@@ -352,6 +414,8 @@ class Run:
         rec.count('mon.reader_progress_at_quiescence', self.quiescent_checks)
         for w in self.send_methods:
             rec.count('cls.send_method_%d' % w)
+        for w in self.recv_methods:
+            rec.count('cls.recv_method_%d' % w)
         # -- FIFO / no loss / no duplication
         rec.count('mon.fifo')
         if self.R != self.msgs[:len(self.R)]:
@@ -679,6 +743,7 @@ def run(rec):
     rec.floor('mon.reader_progress_at_quiescence', 200)
     for w in range(3):
         rec.floor('cls.send_method_%d' % w, 20)
+        rec.floor('cls.recv_method_%d' % w, 20)
 
 
 def replay(rec, w):
